@@ -521,6 +521,173 @@ fn switch_case(at: u8, call: u8) -> Result<(), String> {
     Ok(())
 }
 
+/// Resurrection earns no free credit: a victim reachable only through `k` weak registrations is
+/// resurrected through every one of them inside finalize (mode 0), or a kept object that a write
+/// barrier has just re-queued is resurrected `k` times (mode 1); the cycle is then driven by
+/// cycle_debt with one allocation per call, and must not be unfinished once rho*H/(1-rho)
+/// allocations were made since it woke.
+fn resurrect_case(k: usize, pf: u8, mode: u8) -> Result<(), String> {
+    let f = [[0.0, 0.5, 0.0, 0.0, 0.5], [0.1, 0.4, 0.05, 0.2, 0.3], [0.3, 0.3, 0.3, 0.05, 0.05]][pf as usize];
+    let cfg = Cfg { f, sleep_factor: 0.0, min_sleep: 0, workload: 0, burst: 1, driver: 0, rounds: 0 };
+    let rho = cfg.rho();
+    let mut arena: A = Arena::new(|mc| {
+        let keep: Vec<Gc<'_, N<'_>>> = (0..9u32).map(|i| Gc::new(mc, N { next: Lock::new(None), _pad: i })).collect();
+        let victim = keep[8];
+        R { keep, weak: vec![Gc::downgrade(victim); k], leaves: vec![], windex: vec![] }
+    });
+    let m = arena.metrics().clone();
+    m.set_pacing(Pacing { sleep_factor: 0.0, min_sleep: 0, mark_factor: f[0], trace_factor: f[1], keep_factor: f[2], drop_factor: f[3], free_factor: f[4] });
+    arena.finish_cycle();
+    if arena.collection_phase() != P::Sleeping || m.allocation_debt() != 0.0 {
+        return Err(format!("after finish_cycle: phase {:?}, debt {}", arena.collection_phase(), m.allocation_debt()));
+    }
+    if mode == 0 {
+        arena.mutate_root(|_, r| {
+            r.keep.pop();
+        });
+    }
+    let garbage = |arena: &mut A| {
+        arena.mutate(|mc, _| {
+            Gc::new(mc, N { next: Lock::new(None), _pad: 0 });
+        })
+    };
+    garbage(&mut arena);
+    if !(m.allocation_debt() > 0.0) {
+        return Err(format!("no sleep allowance, one allocation after a cycle: debt {}", m.allocation_debt()));
+    }
+    let h = m.total_gc_count();
+    let bound = rho * h as f64 / (1.0 - rho);
+    let mut since = 0usize;
+    loop {
+        if let Some(ma) = arena.mark_debt() {
+            let mut bad: Option<String> = None;
+            ma.finalize(|fc, root| {
+                if mode == 0 {
+                    if !root.weak[0].is_dead(fc) {
+                        bad = Some("the victim (only weakly reachable, no mutation since it lost its owner before the cycle woke) is not dead".into());
+                    }
+                    for w in &root.weak {
+                        if w.resurrect(fc).is_none() {
+                            bad = Some("resurrect of an undestructed target returned None".into());
+                        }
+                    }
+                } else {
+                    let t = root.keep[0];
+                    gc_arena::barrier::unlock!(Gc::write(fc, t), N, next).set(None); // backward barrier: the (black) parent is queued again
+                    for _ in 0..k {
+                        Gc::resurrect(fc, t);
+                    }
+                }
+            });
+            if let Some(b) = bad {
+                return Err(b);
+            }
+            break;
+        }
+        garbage(&mut arena);
+        since += 1;
+        if since > 10_000 {
+            return Err("marking driven by mark_debt never finished".into());
+        }
+    }
+    for _ in 0..10_000 {
+        arena.cycle_debt();
+        let (d, ph) = (m.allocation_debt(), arena.collection_phase());
+        if !(d == 0.0 || ph == P::Sleeping) {
+            return Err(format!("cycle_debt returned with debt {d} in phase {ph:?}"));
+        }
+        if ph == P::Sleeping {
+            // the resurrected victim survived the cycle
+            let mut alive = true;
+            arena.mutate(|mc, root| {
+                if mode == 0 {
+                    alive = root.weak.iter().all(|w| w.upgrade(mc).is_some());
+                }
+            });
+            if !alive {
+                return Err("the resurrected object did not survive the cycle".into());
+            }
+            return Ok(());
+        }
+        if !((since as f64) < bound) {
+            return Err(format!("cycle woken with H={h} still unfinished after {since} allocations (phase {ph:?}), bound rho*H/(1-rho) = {bound} (rho={rho}); finalize resurrected {}", if mode == 0 { format!("one object through {k} weak registrations") } else { format!("an already queued object {k} times") }));
+        }
+        garbage(&mut arena);
+        since += 1;
+    }
+    Err("cycle never finished".into())
+}
+
+/// The sleep allowance is fixed when the cycle finishes ("the factors that affect the gc sleep time
+/// will not take effect until the start of the next collection"): pacing with other sleep
+/// parameters is set while the collector sleeps (dir 0: longer, 1: none at all; `after` allocations
+/// into the sleep); the current sleep still ends after max(min_sleep, sleep_factor x survivors) of
+/// the pacing the cycle finished under, and the next one follows the new pacing.
+fn sleep_switch_case(dir: u8, after: usize) -> Result<(), String> {
+    let mut arena = Arena::<Rootable![Vec<Gc<'_, N<'_>>>]>::new(|_| vec![]);
+    let m = arena.metrics().clone();
+    let mk = |sf: f64, ms: usize| Pacing { sleep_factor: sf, min_sleep: ms, ..Pacing::DEFAULT };
+    let (a, b) = ((1.0, 16usize), if dir == 0 { (3.0, 64usize) } else { (0.0, 0usize) });
+    m.set_pacing(mk(a.0, a.1));
+    arena.mutate_root(|mc, root| {
+        for i in 0..40u32 {
+            root.push(Gc::new(mc, N { next: Lock::new(None), _pad: i }));
+            Gc::new(mc, N { next: Lock::new(None), _pad: 0 });
+        }
+    });
+    arena.finish_cycle();
+    arena.finish_cycle();
+    let mut cur = a;
+    for round in 0..2 {
+        if arena.collection_phase() != P::Sleeping || m.allocation_debt() != 0.0 {
+            return Err(format!("round {round}: after finish_cycle: phase {:?}, debt {}", arena.collection_phase(), m.allocation_debt()));
+        }
+        let survivors = m.total_gc_count();
+        let w = (cur.0 * survivors as f64).max(cur.1 as f64);
+        let mut k = 0usize;
+        loop {
+            if round == 0 && k == after {
+                m.set_pacing(mk(b.0, b.1));
+            }
+            k += 1;
+            arena.mutate(|mc, _| {
+                Gc::new(mc, N { next: Lock::new(None), _pad: 0 });
+            });
+            let d = m.allocation_debt();
+            if (k as f64) <= w {
+                if d != 0.0 {
+                    return Err(format!("round {round}: cycle finished under sleep_factor {} / min_sleep {} with {survivors} survivors (threshold {w}){}: debt {d} after only {k} allocations", cur.0, cur.1, if round == 0 { format!(", set_pacing(sleep_factor {} / min_sleep {}) called {after} allocations into the sleep", b.0, b.1) } else { String::new() }));
+                }
+                let cnt = m.total_gc_count();
+                arena.collect_debt();
+                if arena.collection_phase() != P::Sleeping || m.total_gc_count() != cnt {
+                    return Err(format!("round {round}: collect_debt made progress while the collector should sleep ({k} <= {w})"));
+                }
+            } else {
+                if !(d > 0.0) {
+                    return Err(format!("round {round}: cycle finished under sleep_factor {} / min_sleep {} with {survivors} survivors: {k} allocations exceed the threshold {w} but debt is {d}{}", cur.0, cur.1, if round == 0 { format!(" (set_pacing(sleep_factor {} / min_sleep {}) called {after} allocations into the sleep)", b.0, b.1) } else { String::new() }));
+                }
+                break;
+            }
+            if k > 100_000 {
+                return Err("sleep test did not terminate".into());
+            }
+        }
+        // the next cycle finishes under the new pacing
+        arena.finish_cycle();
+        if arena.collection_phase() != P::Sleeping {
+            arena.finish_cycle();
+        }
+        cur = b;
+        // (finish_cycle from a woken collector may carry debt over: normalise)
+        let d = m.allocation_debt();
+        if d != 0.0 {
+            arena.finish_cycle();
+        }
+    }
+    Ok(())
+}
+
 /// Only the scale / wide cases (also run as a stage of C01: "no reachable value is lost" on heaps far beyond the explorer's).
 pub fn run_scale(thorough: bool, only: Option<&str>) -> GridOut {
     run_inner(thorough, only, true)
@@ -540,13 +707,26 @@ fn run_inner(thorough: bool, only: Option<&str>, scale_only: bool) -> GridOut {
             scale.push((format!("scale/switch/at{at}/call{call}"), 100 + at * 2 + call, 0));
         }
     }
+    for (ki, k) in [1usize, 2, 64].iter().enumerate() {
+        for pf in 0..3u8 {
+            for mode in 0..2u8 {
+                // (kind 120..: resurrection cases, n = registrations)
+                scale.push((format!("scale/resurrect/k{k}/pf{pf}/mode{mode}"), 120 + (ki as u8) * 6 + pf * 2 + mode, *k));
+            }
+        }
+    }
+    for dir in 0..2u8 {
+        for (ai, after) in [0usize, 5, 16].iter().enumerate() {
+            scale.push((format!("scale/sleepswitch/dir{dir}/after{after}"), 140 + dir * 3 + ai as u8, *after));
+        }
+    }
     for &n in if thorough { &[100_000usize, 400_000][..] } else { &[100_000usize][..] } {
         for kind in 0..5u8 {
             scale.push((format!("scale/kind{kind}/n{n}"), kind, n));
         }
     }
     if scale_only {
-        scale.retain(|c| !c.0.starts_with("scale/switch") && only.map(|o| c.0 == o).unwrap_or(true));
+        scale.retain(|c| !c.0.starts_with("scale/switch") && !c.0.starts_with("scale/resurrect") && !c.0.starts_with("scale/sleepswitch") && only.map(|o| c.0 == o).unwrap_or(true));
     } else if let Some(id) = only {
         if id.starts_with("scale/") {
             scale.retain(|c| c.0 == id);
@@ -643,7 +823,7 @@ fn run_inner(thorough: bool, only: Option<&str>, scale_only: bool) -> GridOut {
     let mut scale_viol: Vec<J> = vec![];
     for (si, (name, kind, n)) in scale.iter().enumerate() {
         watch.begin(nthreads, ncfg + si);
-        let r = std::panic::catch_unwind(|| if *kind >= 100 { switch_case((*kind - 100) / 2, (*kind - 100) % 2) } else if *kind == 90 { wide_case(*n) } else { scale_case(*kind, *n) }).unwrap_or_else(|p| Err(format!("panic: {}", gcv::wops::panic_msg(&p))));
+        let r = std::panic::catch_unwind(|| if *kind >= 140 { sleep_switch_case((*kind - 140) / 3, *n) } else if *kind >= 120 { resurrect_case(*n, ((*kind - 120) % 6) / 2, (*kind - 120) % 2) } else if *kind >= 100 { switch_case((*kind - 100) / 2, (*kind - 100) % 2) } else if *kind == 90 { wide_case(*n) } else { scale_case(*kind, *n) }).unwrap_or_else(|p| Err(format!("panic: {}", gcv::wops::panic_msg(&p))));
         watch.end(nthreads);
         if let Err(e) = r {
             scale_viol.push(J::obj().with("case", name.as_str()).with("message", e.as_str()));
@@ -655,7 +835,7 @@ fn run_inner(thorough: bool, only: Option<&str>, scale_only: bool) -> GridOut {
         evaluations: cfgs.len() as u64 + scale.len() as u64,
         nontrivial,
         rule: format!(
-            "full grid: pacing factors from the value set with the three documented path sums < 1 (incl. the all-zero stop-the-world row; plus Pacing::DEFAULT) x (sleep_factor, min_sleep) in {{(0,0),(0.5,4),(1,16),(2,1)}} x workloads {:?} x bursts x drivers {:?} x rounds; plus scale cases with traceable objects (all held directly by the root, a chain of 100 000, one table with 5 000 children; heaps of 2 x 100 000 allocations, thorough also 2 x 400 000: stop-the-world collect_debt / cycle_debt end Sleeping with exactly the reachable half left, default-pacing collect_debt returns with zero debt, also after every burst of 2 000) and pacing-switch cases (stop-the-world pacing set while Sleeping / Marking / Marked / Sweeping x collect_debt / cycle_debt: the next call with positive debt ends Sleeping); non-trivial = configurations with non-zero work factors (incremental pacing)",
+            "full grid: pacing factors from the value set with the three documented path sums < 1 (incl. the all-zero stop-the-world row; plus Pacing::DEFAULT) x (sleep_factor, min_sleep) in {{(0,0),(0.5,4),(1,16),(2,1)}} x workloads {:?} x bursts x drivers {:?} x rounds; plus scale cases with traceable objects (all held directly by the root, a chain of 100 000, one table with 5 000 children; heaps of 2 x 100 000 allocations, thorough also 2 x 400 000: stop-the-world collect_debt / cycle_debt end Sleeping with exactly the reachable half left, default-pacing collect_debt returns with zero debt, also after every burst of 2 000) and pacing-switch cases (stop-the-world pacing set while Sleeping / Marking / Marked / Sweeping x collect_debt / cycle_debt: the next call with positive debt ends Sleeping), resurrection cases (finalize resurrects one dead object through 1 / 2 / 64 weak registrations, or an already re-queued object that many times, x 3 pacings: the cycle bound still holds with one allocation per cycle_debt call) and sleep-switch cases (set_pacing with a longer / no sleep allowance 0 / 5 / 16 allocations into a sleep: the current sleep keeps the allowance it was given, the next follows the new pacing); non-trivial = configurations with non-zero work factors (incremental pacing)",
             WORKLOADS, DRIVERS
         ),
         samples: cfgs.iter().step_by((cfgs.len() / 5).max(1)).take(5).map(|c| J::Str(c.id())).collect(),
